@@ -135,11 +135,19 @@ static std::set<std::string> g_canon;      // harness-side copy of the visited s
 
 enum { ARMED, DEFERRED, ANSWERED, DROPPED };
 static const char *stn[] = {"armed", "deferred", "answered", "dropped"};
-enum OpK { ARM, REPLY_OK, REPLY_FAIL, REPLY0_OK, REPLY0_FAIL, CREPLY_OK, CREPLY_FAIL, DEFER, ADDREF, UNREF_OK, UNREF_FAIL, HBASE };
-static const char *opnm[] = {"arm", "reply(msg)/transport accepts", "reply(msg)/transport rejects", "reply(NULL)/transport accepts", "reply(NULL)/transport rejects",
+enum OpK { ARM, ARMX0, ARMX1, ARMX2, ARMX3, ARMX4, REPLY_OK, REPLY_FAIL, REPLY0_OK, REPLY0_FAIL, CREPLY_OK, CREPLY_FAIL, DEFER, ADDREF, UNREF_OK, UNREF_FAIL, HBASE };
+static const char *opnm[] = {"arm", "arm(alt0)", "arm(alt1)", "arm(alt2)", "arm(alt3)", "arm(alt4)", "reply(msg)/transport accepts", "reply(msg)/transport rejects", "reply(NULL)/transport accepts", "reply(NULL)/transport rejects",
                              "mpt_context_reply/transport accepts", "mpt_context_reply/transport rejects", "defer", "addref", "unref/transport accepts", "unref/transport rejects"};
 static const char *hopnm[] = {"reply(msg)/transport accepts", "reply(msg)/transport rejects", "release/transport accepts", "release/transport rejects"};
 
+// id lengths other than the context width that an arm attempt is also made with (a dispatcher bug, a foreign caller):
+// 0, width-1, width+1 and the sizes around the inline val[4]
+static std::vector<int> alt_lens()
+{
+	std::vector<int> v;
+	for (int l : {0, g_idlen - 1, g_idlen + 1, 4, 5}) if (l >= 0 && l != g_idlen && std::find(v.begin(), v.end(), l) == v.end()) v.push_back(l);
+	return v;
+}
 struct Sys;
 static Sys *g_sys = 0;
 static int transport(void *ptr, const mpt::reply_data *rd, const mpt::message *msg);
@@ -147,7 +155,7 @@ static int transport(void *ptr, const mpt::reply_data *rd, const mpt::message *m
 struct Sys {
 	Run &r;
 	mpt::metatype *mt; Mirror *cx; mpt::reply_context *rc; mpt::reply_data *rd;
-	int refs; bool attached; int armed; bool ctx_answered;
+	int refs; bool attached; int armed; bool ctx_answered; bool altused;
 	struct Req { std::vector<uint8_t> id; int state; int accepted; int attempts; };
 	std::vector<Req> req;
 	struct H { mpt::reply_context_detached *h; int req; };
@@ -157,7 +165,7 @@ struct Sys {
 	// per operation
 	int addr, calls, accepted_now; bool accept, bad, fin; const mpt::message *opmsg; std::string opgroup; bool msg_forwarded, msg_default, creply_wellformed;
 
-	Sys(Run &run, uint64_t) : r(run), mt(0), cx(0), rc(0), rd(0), refs(1), attached(true), armed(-1), ctx_answered(false), token(0), step(0), addr(-1), calls(0), accept(true), bad(false), fin(false), opmsg(0)
+	Sys(Run &run, uint64_t) : r(run), mt(0), cx(0), rc(0), rd(0), refs(1), attached(true), armed(-1), ctx_answered(false), altused(false), token(0), step(0), addr(-1), calls(0), accept(true), bad(false), fin(false), opmsg(0)
 	{
 		g_sys = this;
 		ledger_reset();
@@ -176,7 +184,12 @@ struct Sys {
 		if (g_sys == this) g_sys = 0;
 	}
 	int nops() { return HBASE + 4 * g_R; }
-	std::string opname(int op) { return op < HBASE ? std::string("ctx.") + opnm[op] : fmt("handle%d.", (op - HBASE) / 4) + hopnm[(op - HBASE) % 4]; }
+	std::string opname(int op)
+	{
+		if (op >= ARMX0 && op <= ARMX4) { std::vector<int> a = alt_lens(); return op - ARMX0 < (int) a.size() ? fmt("ctx.arm(%d-byte id)", a[op - ARMX0]) : std::string("ctx.arm(unused letter)"); }
+		return opname1(op);
+	}
+	std::string opname1(int op) { return op < HBASE ? std::string("ctx.") + opnm[op] : fmt("handle%d.", (op - HBASE) / 4) + hopnm[(op - HBASE) % 4]; }
 
 	std::string stcls(int k) { return std::string(attached ? "" : "detached,") + (k < 0 ? "no-request" : stn[req[k].state]) + (k >= 0 && req[k].attempts && req[k].state != ANSWERED ? ",rejected-before" : ""); }
 	void fail(const std::string &failure, const std::string &what)
@@ -194,19 +207,21 @@ struct Sys {
 		++calls;
 		if (!attached) fail("transport-used-after-detach", "send callback invoked although the transport was detached");
 		if (ptr != (void *) &token) fail("wrong-target", "send callback invoked with a foreign target pointer");
-		if (d->len != g_idlen) { fail("wrong-id-length", fmt("reply id has %u bytes, request ids have %d", (unsigned) d->len, g_idlen)); return accept ? 0 : mpt::BadOperation; }
 		const uint8_t *v = d->val;
-		std::vector<uint8_t> id(v, v + g_idlen);
-		bool marked = id[0] & 0x80; id[0] &= 0x7f;
+		size_t n = d->len, cap = (size_t) std::max(g_idlen, 4);
+		if (n > cap) { fail("wrong-id-length", fmt("reply id has %u bytes, the context holds at most %zu", (unsigned) d->len, cap)); return accept ? 0 : mpt::BadOperation; }
+		std::vector<uint8_t> id(v, v + n);
+		bool marked = n && (id[0] & 0x80); if (n) id[0] &= 0x7f;
 		int k = -1;
 		for (size_t i = 0; i < req.size(); ++i) if (req[i].id == id) k = (int) i;
-		if (!marked) fail("reply-marker-missing", "reply id " + hex(v, g_idlen) + " does not have the reply bit set");
-		if (k < 0) fail("unknown-id", "reply id " + hex(v, g_idlen) + " belongs to no armed request");
-		else {
-			if (addr >= 0 && k != addr) fail("wrong-id", fmt("reply for request #%d carries the id of request #%d (%s)", addr, k, hex(v, g_idlen).c_str()));
+		if (k < 0 && addr >= 0 && req[addr].id.size() != n) fail("wrong-id-length", fmt("reply for request #%d (id %s) goes out with a %zu-byte id %s", addr, hex(req[addr].id.data(), req[addr].id.size()).c_str(), n, hex(v, n).c_str()));
+		else if (k < 0) fail("unknown-id", "reply id " + hex(v, n) + " belongs to no armed request");
+		else if (!marked) fail("reply-marker-missing", "reply id " + hex(v, n) + " does not have the reply bit set");
+		if (k >= 0) {
+			if (addr >= 0 && k != addr) fail("wrong-id", fmt("reply for request #%d carries the id of request #%d (%s)", addr, k, hex(v, n).c_str()));
 			++req[k].attempts;
 			if (accept) {
-				if (req[k].accepted) fail("second-reply-accepted", fmt("transport accepted a second reply for request #%d (id %s)", k, hex(req[k].id.data(), g_idlen).c_str()));
+				if (req[k].accepted) fail("second-reply-accepted", fmt("transport accepted a second reply for request #%d (id %s)", k, hex(req[k].id.data(), req[k].id.size()).c_str()));
 				++req[k].accepted; ++accepted_now;
 				req[k].state = ANSWERED;
 			}
@@ -235,13 +250,14 @@ struct Sys {
 		++step;
 		fin = (size_t) step + 1 == r.cur.size();
 		hist_ += (hist_.empty() ? "" : " ; ") + opname(op);
-		static const char *grp[] = {"arm", "reply", "reply", "reply", "reply", "reply", "reply", "defer", "addref", "unref", "unref"};
+		static const char *grp[] = {"arm", "arm", "arm", "arm", "arm", "arm", "reply", "reply", "reply", "reply", "reply", "reply", "defer", "addref", "unref", "unref"};
 		r.hint(op < HBASE ? grp[op] : ((op - HBASE) % 4 >= 2 ? "handle.release" : "handle.reply"));
 		bool nontriv = req.size() > 1 || !hs.empty();
 		for (auto &q : req) if (q.attempts && q.state != ANSWERED) nontriv = true;
 		bool ran = true;
 		switch (op) {
-		case ARM: ran = do_arm(); break;
+		case ARM: ran = do_arm(-1); break;
+		case ARMX0: case ARMX1: case ARMX2: case ARMX3: case ARMX4: ran = do_arm(op - ARMX0); break;
 		case REPLY_OK: case REPLY_FAIL: ran = do_reply(0, op == REPLY_OK); break;
 		case REPLY0_OK: case REPLY0_FAIL: ran = do_reply(1, op == REPLY0_OK); break;
 		case CREPLY_OK: case CREPLY_FAIL: ran = do_reply(2, op == CREPLY_OK); break;
@@ -261,36 +277,57 @@ struct Sys {
 		return !bad;
 	}
 
-	bool do_arm()
+	// alt < 0: arm with an id of the context width (what the dispatchers do); alt >= 0: arm attempt with the alt-th other id length
+	bool do_arm(int alt)
 	{
 		if (refs < 1 || (int) req.size() >= g_R) return false;
+		int len = g_idlen;
+		if (alt >= 0) { std::vector<int> a = alt_lens(); if (alt >= (int) a.size() || altused) return false; len = a[alt]; }
 		begin("arm", armed, true);
 		Req q; q.state = ARMED; q.accepted = 0; q.attempts = 0;
-		q.id.assign(g_idlen, 0);
+		q.id.assign(len, 0);
 		int k = (int) req.size();
-		// distinct request ids; first byte below 0x80 (request), zero for the first request when there is room
-		for (int i = 0; i < g_idlen; ++i) q.id[i] = (uint8_t) (0x11 * (i + 1) + k);
-		q.id[0] = g_idlen > 1 ? (k ? 0x7f : 0x00) : (uint8_t) (k ? 0x7f - k : 0x01);
-		q.id[g_idlen - 1] = g_idlen > 1 ? (uint8_t) (k + 1) : q.id[0];
+		if (alt < 0) {
+			// distinct request ids; first byte below 0x80 (request), zero for the first request when there is room
+			for (int i = 0; i < len; ++i) q.id[i] = (uint8_t) (0x11 * (i + 1) + k);
+			q.id[0] = len > 1 ? (k ? 0x7f : 0x00) : (uint8_t) (k ? 0x7f - k : 0x01);
+			q.id[len - 1] = len > 1 ? (uint8_t) (k + 1) : q.id[0];
+		}
+		else for (int i = 0; i < len; ++i) q.id[i] = (uint8_t) (i ? 0xa0 + 3 * i + k : 0x50 + k);     // differs from every regular id in every byte
+		size_t dsz = offsetof(Mirror, val) + (size_t) std::max(g_idlen, 4);
+		std::vector<uint8_t> snapb((uint8_t *) cx, (uint8_t *) cx + dsz);
 		Mirror snap = *cx;
 		mpt::reply_data *d = 0; mpt::reply_context *c = 0;
 		int c1 = LIB(mt->convert(mpt::TypeReplyDataPtr, &d));
 		if (c1 >= 0 && d) LIB(mt->convert(mpt::TypeReplyPtr, &c));
 		if (!c) { cnt("arm: no reply context available (not flagged)"); return false; }
-		int s = LIB(mpt::mpt_reply_set(d, g_idlen, q.id.data()));
+		int s = LIB(mpt::mpt_reply_set(d, len, q.id.data()));
 		std::string changed;
 		if (cx->send != snap.send) changed += " send-callback";
 		if (cx->ptr != snap.ptr) changed += " send-target";
 		if (cx->ref != snap.ref) changed += " refcount";
 		if (cx->mt_vptr != snap.mt_vptr) changed += " metatype-vptr";
 		if (cx->ctx_vptr != snap.ctx_vptr) changed += " reply_context-vptr";
-		if (!changed.empty()) { attached = true; addr = -1; fail("context-disturbed", "arming id " + hex(q.id.data(), g_idlen) + " through the TypeReplyDataPtr conversion + mpt_reply_set changed the context's own fields:" + changed); return true; }
+		if (cx->max != snap.max) changed += " id-capacity";
+		if (!changed.empty()) { attached = true; addr = -1; fail("context-disturbed", fmt("arming %d-byte id ", len) + hex(q.id.data(), len) + " through the TypeReplyDataPtr conversion + mpt_reply_set changed the context's own fields:" + changed); return true; }
 		if (mem()) return true;
-		if (s < 0) { cnt("arm: mpt_reply_set refused (not flagged)"); return false; }
+		if (alt >= 0) altused = true;
+		if (s < 0) {
+			// a refused arm must leave the pending request (length and id bytes) alone; besides this snapshot the canonical state
+			// carries the context's id bytes, so a silently replaced id is also followed to the next reply by the transport oracle
+			if (memcmp(snapb.data(), cx, dsz)) {
+				if (!getenv("C12_NO_ARM_SNAPSHOT")) fail("refused-arm-changed-reply-data", fmt("mpt_reply_set(%d-byte id %s) on a %d-byte context returned %d but changed the stored request: len %u -> %u, id %s -> %s", len, hex(q.id.data(), len).c_str(), g_idlen, s,
+				     (unsigned) snap.len, (unsigned) cx->len, hex(snapb.data() + offsetof(Mirror, val), snap.len).c_str(), hex(cx->val, std::min<size_t>(cx->len, std::max(g_idlen, 4))).c_str()));
+				return true;
+			}
+			cnt(alt < 0 ? "arm: mpt_reply_set refused (not flagged)" : "arm with a too long id refused, pending request untouched");
+			return alt >= 0;
+		}
 		rd = d; rc = c;
 		if (armed >= 0) { req[armed].state = DROPPED; cnt("arm over an unanswered request (overwritten, not flagged)"); }
+		if (!len) { armed = -1; ctx_answered = false; cnt("arm with an empty id accepted: nothing armed"); return true; }
 		req.push_back(q); armed = k; ctx_answered = false;
-		cnt("armed");
+		cnt(alt < 0 ? "armed" : "armed with a shorter id than the context width");
 		return true;
 	}
 
@@ -430,11 +467,13 @@ struct Sys {
 
 	std::string canon()
 	{
-		std::string s = fmt("refs=%d att=%d armed=%d ca=%d |", refs, attached, armed, ctx_answered);
-		for (auto &q : req) s += fmt(" %s/%d/%d", stn[q.state], q.accepted, q.attempts ? 1 : 0);
+		std::string s = fmt("refs=%d att=%d armed=%d ca=%d alt=%d |", refs, attached, armed, ctx_answered, altused);
+		size_t cap = (size_t) std::max(g_idlen, 4);
+		for (auto &q : req) s += fmt(" %s/%d/%d/L%zu", stn[q.state], q.accepted, q.attempts ? 1 : 0, q.id.size());
 		s += " | handles:";
-		for (auto &h : hs) { s += fmt(" #%d", h.req); if (ledger_is_live(h.h)) s += fmt("(len=%u)", (unsigned) ((HMirror *) h.h)->len); else s += "(dead)"; }
-		if (cx && ledger_is_live(cx)) s += fmt(" | ctx: ref=%lu len=%u send=%d", (unsigned long) cx->ref, (unsigned) cx->len, cx->send != 0);
+		for (auto &h : hs) { s += fmt(" #%d", h.req); if (ledger_is_live(h.h)) { HMirror *m = (HMirror *) h.h; s += fmt("(len=%u id=%s)", (unsigned) m->len, hex(m->val, std::min<size_t>(m->len, cap)).c_str()); } else s += "(dead)"; }
+		// the stored id bytes are part of the state: a request id replaced behind the model's back yields a new state that is explored up to its reply
+		if (cx && ledger_is_live(cx)) s += fmt(" | ctx: ref=%lu len=%u id=%s send=%d", (unsigned long) cx->ref, (unsigned) cx->len, hex(cx->val, std::min<size_t>(cx->len, cap)).c_str(), cx->send != 0);
 		else s += " | ctx: freed";
 		return s;
 	}
@@ -602,7 +641,7 @@ static void stream_case(Run &r, Ctx &x, int idlen)
 	++r.states;
 }
 // =====================================================================
-static const int quick_idlen[] = {1, 2, 4, 5, 8};
+static const int quick_idlen[] = {1, 2, 3, 4, 5, 8};
 static const int thorough_idlen[] = {1, 2, 3, 4, 5, 8, 9, 16, 255};
 void mc_jobs(Tier t, std::vector<std::string> &jobs)
 {
